@@ -355,6 +355,12 @@ Definition nonce_process_internal (R1 R2 : point) (agg_pk32 msg : bytes) : Z * b
   let F := match padd R1 (pmul b R2) with None => G | F => F end in
   (b2z (Z.odd (py F)), fe_to_b32 (px F), b).
 
+(* the tweak term e * tacc (sign by the parity of the aggregate key) that aggregation adds to the sum *)
+Definition session_s_part (ci : cache_i) (e : Z) : Z :=
+  if c_tweak ci =? 0 then 0
+  else let et := sc_mul P e (c_tweak ci) in
+       if Z.odd (py (c_pk ci)) then sc_neg P et else et.
+
 Definition musig_nonce_process (aggnonce msg32 cache adaptor : option bytes) : list arg :=
   match aggnonce, msg32, cache with
   | Some an, Some msg, Some c =>
@@ -374,10 +380,7 @@ Definition musig_nonce_process (aggnonce msg32 cache adaptor : option bytes) : l
         | Some R1a =>
           let '(par, fin, b) := nonce_process_internal R1a R2 agg_pk32 msg in
           let e := challenge P fin msg agg_pk32 in
-          let sp := if c_tweak ci =? 0 then 0
-                    else let et := sc_mul P e (c_tweak ci) in
-                         if Z.odd (py (c_pk ci)) then sc_neg P et else et in
-          [AInt 1; ABytes (session_save (mkSession par fin b e sp))]
+          [AInt 1; ABytes (session_save (mkSession par fin b e (session_s_part ci e)))]
         end
       end
     end
@@ -391,6 +394,17 @@ Definition secnonce_load (o : bytes) : option (Z * Z * point) :=
     if is_zero_bytes (slice 4 64 o) then None
     else Some (sc_b (slice 4 32 o), sc_b (slice 36 32 o), pt_of_c64 (slice 68 64 o))
   else None.
+
+(* the signature scalar: sk = (+-d) * mu (sign: parity of the aggregate key XOR parity_acc), k negated for an
+   odd final nonce, s = e*sk + k1 + b*k2 *)
+Definition partial_sign_scalar (ci : cache_i) (si : session_i) (k1 k2 : Z) (pk : point) (d : Z) : Z :=
+  let d1 := if xorb (Z.odd (py (c_pk ci))) (c_parity ci =? 1) then sc_neg P d else d in
+  let mu := keyaggcoef (c_hash ci) pk (c_second ci) in
+  let sk := sc_mul P d1 mu in
+  let neg_k := negb (s_parity si =? 0) in
+  let k1' := if neg_k then sc_neg P k1 else k1 in
+  let k2' := if neg_k then sc_neg P k2 else k2 in
+  sc_add P (sc_mul P (s_e si) sk) (sc_add P k1' (sc_mul P (s_b si) k2')).
 
 (* result of secp256k1_musig_partial_sign on a non-NULL secnonce whose content on entry is [sec]:
    (ret, illegal callbacks, signature scalar if one was written).  The secnonce itself is ALWAYS
@@ -409,17 +423,9 @@ Definition partial_sign_core (sec : bytes) (want_sig : bool) (keypair cache sess
         match cache_load c with
         | None => (false, 1, None)
         | Some ci =>
-          let d1 := if xorb (Z.odd (py (c_pk ci))) (c_parity ci =? 1) then sc_neg P d else d in
-          let mu := keyaggcoef (c_hash ci) pk (c_second ci) in
-          let sk := sc_mul P d1 mu in
           match session_load se with
           | None => (false, 1, None)
-          | Some si =>
-            let neg_k := negb (s_parity si =? 0) in
-            let k1' := if neg_k then sc_neg P k1 else k1 in
-            let k2' := if neg_k then sc_neg P k2 else k2 in
-            let s := sc_add P (sc_mul P (s_e si) sk) (sc_add P k1' (sc_mul P (s_b si) k2')) in
-            (true, 0, Some s)
+          | Some si => (true, 0, Some (partial_sign_scalar ci si k1 k2 pk d))
           end
         end
       end
@@ -442,6 +448,16 @@ Definition musig_partial_sign (secnonce : option bytes) (want_sig : bool) (keypa
   with_ill ill [AInt (b2z ret); out_opt want_sig sig; opt_arg sec'].
 
 (* ------------------------------------------------------------------ partial verification, aggregation *)
+(* the verification equation of secp256k1_musig_partial_sig_verify on loaded values:
+   -s*G + (e*mu, sign by g*gacc)*pk + (R1 + b*R2, negated for an odd final nonce) is infinity *)
+Definition partial_sig_verify_core (ci : cache_i) (si : session_i) (s : Z) (R1 R2 pk : point) : bool :=
+  let Re := padd R1 (pmul (s_b si) R2) in
+  let mu := keyaggcoef (c_hash ci) pk (c_second ci) in
+  let e0 := sc_mul P (s_e si) mu in
+  let e := if xorb (Z.odd (py (c_pk ci))) (c_parity ci =? 1) then sc_neg P e0 else e0 in
+  let Re' := if s_parity si =? 0 then Re else pneg Re in
+  is_inf (padd (padd (pmul e pk) (pmul (sc_neg P s) G)) Re').
+
 Definition musig_partial_sig_verify (psig pubnonce pubkey cache session : option bytes) : list arg :=
   match psig, pubnonce, pubkey, cache, session with
   | Some sg, Some pn, Some pko, Some c, Some se =>
@@ -459,14 +475,7 @@ Definition musig_partial_sig_verify (psig pubnonce pubkey cache session : option
           | Some ci =>
             match psig_load sg with
             | None => [AInt 0; AIll 1]
-            | Some s =>
-              let Re := padd R1 (pmul (s_b si) R2) in
-              let mu := keyaggcoef (c_hash ci) pk (c_second ci) in
-              let e0 := sc_mul P (s_e si) mu in
-              let e := if xorb (Z.odd (py (c_pk ci))) (c_parity ci =? 1) then sc_neg P e0 else e0 in
-              let Re' := if s_parity si =? 0 then Re else pneg Re in
-              let T := padd (padd (pmul e pk) (pmul (sc_neg P s) G)) Re' in
-              [AInt (b2z (is_inf T))]
+            | Some s => [AInt (b2z (partial_sig_verify_core ci si s R1 R2 pk))]
             end
           end
         end
